@@ -205,6 +205,9 @@ func buildOverlay(prop string, files []*harnessFile, entries []*entrySpec, vrtPa
 	pkgName := map[string]string{}
 	for _, hf := range files {
 		base := strings.TrimSuffix(filepath.Base(hf.path), ".go")
+		if d := filepath.Base(filepath.Dir(hf.path)); !strings.EqualFold(d, prop) {
+			base = strings.ToLower(strings.TrimPrefix(d, "_")) + "_" + base // included from another harness directory
+		}
 		virt := fmt.Sprintf("%s/%s/zz_verif_%s_%s.go", repoRoot, hf.pkgDir, strings.ToLower(prop), base)
 		if hf.isTest {
 			virt = fmt.Sprintf("%s/%s/zz_verif_%s_%s", repoRoot, hf.pkgDir, strings.ToLower(prop), filepath.Base(hf.path))
